@@ -29,13 +29,14 @@ var cUnknown = cval{}
 type cprop struct {
 	fn    *ssa.Function
 	bind  map[ssa.Value]cval
+	heap  map[ssa.Value]cval  // slices made with a constant length (make([]T, k)) that stay local
 	mem   map[*ssa.Alloc]cval // local arrays / scalars whose address does not escape
 	prev  *ssa.BasicBlock
 	depth int
 }
 
 func newCprop(fn *ssa.Function) *cprop {
-	return &cprop{fn: fn, bind: map[ssa.Value]cval{}, mem: map[*ssa.Alloc]cval{}}
+	return &cprop{fn: fn, bind: map[ssa.Value]cval{}, mem: map[*ssa.Alloc]cval{}, heap: map[ssa.Value]cval{}}
 }
 
 func zeroOf(t types.Type) cval {
@@ -82,6 +83,21 @@ func localEscapes(al *ssa.Alloc) bool {
 			}
 		case *ssa.Slice:
 			for _, r2 := range *x.Referrers() {
+				if ia, isIA := r2.(*ssa.IndexAddr); isIA {
+					// element addressing through the slice: loads only
+					for _, r3 := range *ia.Referrers() {
+						switch y := r3.(type) {
+						case *ssa.UnOp, *ssa.DebugRef:
+						case *ssa.Store:
+							if y.Val == ssa.Value(ia) {
+								return true
+							}
+						default:
+							return true
+						}
+					}
+					continue
+				}
 				c, ok := r2.(*ssa.Call)
 				if !ok {
 					if _, isDbg := r2.(*ssa.DebugRef); isDbg {
@@ -206,12 +222,12 @@ func (c *cprop) val(v ssa.Value) cval {
 		}
 	case *ssa.Slice:
 		// whole slice of a tracked local array / of a slice value
-		if x.Low == nil && x.High == nil && x.Max == nil {
-			if al, ok := x.X.(*ssa.Alloc); ok {
-				if m, ok := c.mem[al]; ok {
-					return m
-				}
+		if al, ok := wholeArraySlice(x); ok {
+			if m, ok := c.mem[al]; ok {
+				return m
 			}
+		}
+		if x.Low == nil && x.High == nil && x.Max == nil {
 			return c.val(x.X)
 		}
 	}
@@ -259,6 +275,16 @@ func (c *cprop) step(b *ssa.BasicBlock, until ssa.Instruction) (reached bool) {
 			if _, ok := c.bind[x]; !ok {
 				c.bind[x] = cUnknown
 			}
+		case *ssa.MakeSlice:
+			if k, ok := flow.ConstInt(x.Len); ok && k >= 0 && k <= 64 && !sliceEscapes(x) {
+				st, _ := x.Type().Underlying().(*types.Slice)
+				z := cval{kind: 2}
+				for i := int64(0); i < k; i++ {
+					z.elems = append(z.elems, zeroOf(st.Elem()))
+				}
+				c.heap[x] = z
+				c.bind[x] = z
+			}
 		case *ssa.Alloc:
 			if !x.Heap || !localEscapes(x) {
 				if !localEscapes(x) {
@@ -297,6 +323,14 @@ func (c *cprop) step(b *ssa.BasicBlock, until ssa.Instruction) (reached bool) {
 				var base cval
 				if al, ok := a.X.(*ssa.Alloc); ok {
 					base = c.mem[al]
+				} else if sl, ok := a.X.(*ssa.Slice); ok {
+					if al, ok := wholeArraySlice(sl); ok {
+						base = c.mem[al]
+					} else {
+						base = c.val(a.X)
+					}
+				} else if h, ok := c.heap[a.X]; ok {
+					base = h
 				} else {
 					base = c.val(a.X)
 				}
@@ -309,12 +343,35 @@ func (c *cprop) step(b *ssa.BasicBlock, until ssa.Instruction) (reached bool) {
 			if !ok || bi.Name() != "copy" || len(x.Call.Args) != 2 {
 				continue
 			}
-			// copy(local[:], src)
-			dst, ok := x.Call.Args[0].(*ssa.Slice)
-			if !ok || dst.Low != nil || dst.High != nil {
+			// copy(made, src): a slice made locally with a constant length
+			if h, ok := c.heap[x.Call.Args[0]]; ok {
+				src := c.val(x.Call.Args[1])
+				switch src.kind {
+				case 2:
+					ne := append([]cval{}, h.elems...)
+					n := 0
+					for i := 0; i < len(ne) && i < len(src.elems); i++ {
+						ne[i] = src.elems[i]
+						n++
+					}
+					nv := cval{kind: 2, elems: ne}
+					c.heap[x.Call.Args[0]] = nv
+					c.bind[x.Call.Args[0]] = nv
+					c.bind[x] = cInt(int64(n))
+				case 3:
+					c.bind[x] = cInt(0)
+				default:
+					c.heap[x.Call.Args[0]] = cUnknown
+					c.bind[x.Call.Args[0]] = cUnknown
+				}
 				continue
 			}
-			al, ok := dst.X.(*ssa.Alloc)
+			// copy(local[:], src)
+			dst, ok := x.Call.Args[0].(*ssa.Slice)
+			if !ok {
+				continue
+			}
+			al, ok := wholeArraySlice(dst)
 			if !ok {
 				continue
 			}
@@ -326,11 +383,15 @@ func (c *cprop) step(b *ssa.BasicBlock, until ssa.Instruction) (reached bool) {
 			switch {
 			case m.kind == 2 && src.kind == 2:
 				ne := append([]cval{}, m.elems...)
+				n := 0
 				for i := 0; i < len(ne) && i < len(src.elems); i++ {
 					ne[i] = src.elems[i]
+					n++
 				}
 				c.mem[al] = cval{kind: 2, elems: ne}
+				c.bind[x] = cInt(int64(n))
 			case m.kind == 2 && src.kind == 3:
+				c.bind[x] = cInt(0)
 			default:
 				c.mem[al] = cUnknown
 			}
@@ -368,4 +429,53 @@ func (c *cprop) runTo(target ssa.Instruction) (bool, string) {
 		c.prev, b = b, next
 	}
 	return false, "path too long"
+}
+
+
+// sliceEscapes: a made slice is used other than by element addressing, len/cap and as an operand of copy.
+func sliceEscapes(m *ssa.MakeSlice) bool {
+	for _, ref := range *m.Referrers() {
+		switch x := ref.(type) {
+		case *ssa.DebugRef:
+		case *ssa.IndexAddr:
+			for _, r2 := range *x.Referrers() {
+				switch y := r2.(type) {
+				case *ssa.UnOp, *ssa.DebugRef:
+				case *ssa.Store:
+					if y.Val == ssa.Value(x) {
+						return true
+					}
+				default:
+					return true
+				}
+			}
+		case *ssa.Call:
+			bi, ok := x.Call.Value.(*ssa.Builtin)
+			if !ok || (bi.Name() != "copy" && bi.Name() != "len" && bi.Name() != "cap") {
+				return true
+			}
+		default:
+			return true
+		}
+	}
+	return false
+}
+
+
+// wholeArraySlice: arr[:] or arr[:len(arr)] of a local array (what `make([]T, k)` with a constant k compiles to).
+func wholeArraySlice(sl *ssa.Slice) (*ssa.Alloc, bool) {
+	al, ok := sl.X.(*ssa.Alloc)
+	if !ok || sl.Low != nil || sl.Max != nil {
+		return nil, false
+	}
+	at, ok := al.Type().Underlying().(*types.Pointer).Elem().Underlying().(*types.Array)
+	if !ok {
+		return nil, false
+	}
+	if sl.High != nil {
+		if k, isK := flow.ConstInt(sl.High); !isK || k != at.Len() {
+			return nil, false
+		}
+	}
+	return al, true
 }
